@@ -308,6 +308,15 @@ func extractC08(c *Ctx) error {
 	}
 	c.P("(* x/paloma/keeper/msg_server.go AddStatusUpdate: statements in order (V = validation that can return an error, E = environment read, L = log call) *)")
 	c.P("Definition status_update_shape : string := %s.", CoqStr(shape))
+	// the jailing loop of the consensus prune job: valset.Jail is order-sensitive (Sys/NodeLocal.v), so the
+	// loop that calls it must range over something whose order is state
+	jl, err := c08JailLoop(c, pkgs)
+	if err != nil {
+		return err
+	}
+	c.P("(* x/consensus/keeper jailValidatorsWhichMissedAttestation: the range statement(s) whose body calls valset.Jail, as <type kind>:<range expression> *)")
+	c.P("Definition jail_missing_loop : string := %s.", CoqStr(jl))
+	c.Info("jail_missing_loop", jl)
 	c.Info("sites", len(sites))
 	c.Info("by_kind", byKind)
 	c.Info("unclassified", unclassified)
@@ -876,4 +885,65 @@ func c08StatusUpdateShape(c *Ctx) (string, error) {
 		}
 	}
 	return sb.String(), nil
+}
+
+// c08JailLoop finds, in x/consensus/keeper.jailValidatorsWhichMissedAttestation, every range statement
+// whose body (transitively) calls a method named Jail, and prints "<kind>:<expr>" (kind = slice, array,
+// map, chan, func, other) joined by ";".  "none" when there is no such loop.
+func c08JailLoop(c *Ctx, pkgs []*packages.Package) (string, error) {
+	for _, p := range pkgs {
+		if !strings.HasSuffix(p.PkgPath, "/x/consensus/keeper") {
+			continue
+		}
+		for _, f := range p.Syntax {
+			fd := FindFunc(f, "Keeper", "jailValidatorsWhichMissedAttestation")
+			if fd == nil || fd.Body == nil {
+				continue
+			}
+			var found []string
+			ast.Inspect(fd.Body, func(n ast.Node) bool {
+				rs, ok := n.(*ast.RangeStmt)
+				if !ok {
+					return true
+				}
+				calls := false
+				ast.Inspect(rs.Body, func(m ast.Node) bool {
+					if ce, ok := m.(*ast.CallExpr); ok {
+						if se, ok := ce.Fun.(*ast.SelectorExpr); ok && se.Sel.Name == "Jail" {
+							calls = true
+						}
+					}
+					return true
+				})
+				if !calls {
+					return true
+				}
+				kind := "other"
+				if t := p.TypesInfo.TypeOf(rs.X); t != nil {
+					switch {
+					case c08CoreMap(t):
+						kind = "map"
+					default:
+						switch t.Underlying().(type) {
+						case *types.Slice:
+							kind = "slice"
+						case *types.Array:
+							kind = "array"
+						case *types.Chan:
+							kind = "chan"
+						case *types.Signature:
+							kind = "func"
+						}
+					}
+				}
+				found = append(found, kind+":"+c08Ascii(c.Src(rs.X)))
+				return true
+			})
+			if len(found) == 0 {
+				return "none", nil
+			}
+			return strings.Join(found, ";"), nil
+		}
+	}
+	return "", fmt.Errorf("x/consensus/keeper Keeper.jailValidatorsWhichMissedAttestation not found")
 }
